@@ -534,7 +534,7 @@ impl FlatOmitPrefixLayoutExtension {
         let case_matters = config.delimiter.to_lowercase() != config.delimiter.to_uppercase();
 
         let normalized_delimiter = if case_matters {
-            config.delimiter.to_lowercase()
+            lowercase_chars(&config.delimiter)
         } else {
             config.delimiter.clone()
         };
@@ -548,16 +548,19 @@ impl FlatOmitPrefixLayoutExtension {
 
     /// Object IDs have a prefix removed and the remaining part is returned
     fn map_object_id(&self, object_id: &str) -> String {
-        let test_id = if self.case_matters {
-            Cow::Owned(object_id.to_lowercase())
+        // The delimiter must be located in the id as it was given: lower casing the id may change
+        // the lengths of its characters
+        let found = if self.case_matters {
+            rfind_ignore_case(object_id, &self.normalized_delimiter)
         } else {
-            Cow::Borrowed(object_id)
+            object_id
+                .rfind(&self.normalized_delimiter)
+                .map(|index| (index, self.normalized_delimiter.len()))
         };
 
-        match test_id.rfind(&self.normalized_delimiter) {
+        match found {
             None => object_id.to_string(),
-            Some(index) => {
-                let length = self.normalized_delimiter.len();
+            Some((index, length)) => {
                 if object_id.len() == index + length {
                     // Unfortunately, this needs to panic because I don't want to introduce a Result here
                     panic!("The id '{}' cannot be mapped to a storage path using layout {} because it ends with the delimiter '{}'",
@@ -760,6 +763,29 @@ fn validate_digest_algorithm(
 }
 
 // These functions are needed for serde default values
+
+/// Lower cases a string one character at a time, ie without rules that depend on the context
+fn lowercase_chars(value: &str) -> String {
+    value.chars().flat_map(char::to_lowercase).collect()
+}
+
+/// Finds the right-most occurrence of `lower_delimiter`, which must already be lower case, in
+/// `value` ignoring case. Returns the byte index and the byte length of the occurrence in `value`.
+fn rfind_ignore_case(value: &str, lower_delimiter: &str) -> Option<(usize, usize)> {
+    for (start, _) in value.char_indices().rev() {
+        let mut lowered = String::with_capacity(lower_delimiter.len());
+        for (offset, c) in value[start..].char_indices() {
+            lowered.extend(c.to_lowercase());
+            if lowered.len() >= lower_delimiter.len() {
+                if lowered == lower_delimiter {
+                    return Some((start, offset + c.len_utf8()));
+                }
+                break;
+            }
+        }
+    }
+    None
+}
 
 fn default_tuple() -> usize {
     3
